@@ -15,7 +15,8 @@ RULE = ("cases = (parent chart with 1-2 <invoke type=scxml> in one state, child 
         "entry, echoes x.<n> events it gets via #_<invokeid>, optionally holds a delayed send to #_parent, optionally invokes a never-finishing session of its own (three levels); the parent leaves the "
         "invoking state at a generated time (never / to a sibling / external self-transition = exit + re-entry in one microstep / to "
         "its top-level final), optionally comes back (same id re-invoked), reacts to done.invoke by staying or moving; autoforward "
-        "and <finalize> per invoke; real threads (one per child, timer threads), interleaving perturbed at the USCXML_VERIF points "
+        "and <finalize> per invoke; optionally the invoking state's <onexit> sends to #_<invokeid> (must still succeed: content runs before "
+        "the invocation is cancelled); real threads (one per child, timer threads), interleaving perturbed at the USCXML_VERIF points "
         "(event-queue actions vector; forced: child thread parked between reaching FINISHED and the _isActive test while the parent "
         "leaves; parent parked on entry of USCXMLInvoker::stop). Oracle = invariants over the merged monitor trace (monitor copied "
         "to invokers, records serialised under one lock, tagged with session id and a monotonic timestamp): (1) beforeInvoking "
@@ -105,8 +106,13 @@ def parent_doc(case):
         sends += '<send vid="go%d2" target="#_inv1" event="x.%d2"/>' % (g + 1, g + 1)
         tr += '<transition event="go.%d" vid="t_go%d">%s</transition>' % (g + 1, g + 1, sends)
     tr += '<transition event="f" vid="t_f"/>'
-    return ('<scxml %s name="parent"><state id="p0" vid="p0">%s%s</state><state id="p1" vid="p1"><transition event="back" target="p0" vid="t_back"/>'
-            '</state><state id="p2" vid="p2"/><final id="pf" vid="pf"/></scxml>' % (NS, inv, tr))
+    ox = ""
+    if case.get("onexit_send"):
+        # W3C exitStates(): a state's onexit content runs before its invocations are cancelled, so this event can still be handed
+        # to the child (whether the child gets round to processing it before it is cancelled is open)
+        ox = '<onexit><send vid="ox0" target="#_inv1" event="x.bye"/></onexit>'
+    return ('<scxml %s name="parent"><state id="p0" vid="p0">%s%s%s</state><state id="p1" vid="p1"><transition event="back" target="p0" vid="t_back"/>'
+            '</state><state id="p2" vid="p2"/><final id="pf" vid="pf"/></scxml>' % (NS, ox, inv, tr))
 
 
 def script_for(case):
@@ -264,6 +270,21 @@ def check_trace(case, tr, end_ts):
     # sessions whose first records could not be attributed (two children started together) do not matter for the clauses below
     by_session = {"#_scxml_" + i.session: i for k in insts for i in insts[k] if i.session}
 
+    # (1b) onexit content of the invoking state runs before its invocations are cancelled; a send to the child from there succeeds
+    if case.get("onexit_send"):
+        for pos, e in parent_seq:
+            if e[0] == 'bc' and e[1] == 'ox0':
+                i1 = [i for i in insts[1] if i.bi_pos < pos and (i.au_pos is None or i.au_pos > pos or (i.bu_pos is not None and i.bu_pos < pos))]
+                for i in insts[1]:
+                    if i.bi_pos < pos and i.bu_pos is not None and i.bu_pos < pos and (i.au_pos is None or True):
+                        # the instance that was active when the state was exited was already being cancelled
+                        nxt = [j for j in insts[1] if j.bi_pos > i.bi_pos]
+                        if not nxt or nxt[0].bi_pos > pos:
+                            if not any(q[0] == 'ax' and q[1] == 'p0' and i.bu_pos < qp < pos for qp, q in parent_seq):
+                                bad("invocation cancelled before the onexit content of its state ran: inv1", pos)
+        for pe in parent_events:
+            if pe[1] == 'error.communication':
+                bad("send to #_inv1 from the onexit block of the invoking state failed: error.communication", pe[0])
     # (2) done.invoke
     for k in insts:
         done = [pe for pe in parent_events if pe[1] == "done.invoke.inv%d" % k]
@@ -334,7 +355,7 @@ def check_trace(case, tr, end_ts):
     # (4) parent -> child and autoforward
     fed_names = set(n for _, n in script_for(case)) | ({"leave"} if case["forced"] == "run.finished" else set()) | {"zz.end"}
     for k in insts:
-        mine = set(xnames_for(case, k))
+        mine = set(xnames_for(case, k)) | ({'x.bye'} if (k == 1 and case.get("onexit_send")) else set())
         others = set(x for kk in insts if kk != k for x in xnames_for(case, kk))
         for i in insts[k]:
             xs = [r for r in i.recv if r[0].startswith('x.')]
@@ -344,7 +365,7 @@ def check_trace(case, tr, end_ts):
             names = [r[0] for r in xs]
             if len(set(names)) != len(names):
                 bad("#_inv%d event processed twice by the child: %s" % (k, names), xs[-1][1])
-            if names != sorted(names):
+            if [x for x in names if x != 'x.bye'] != sorted(x for x in names if x != 'x.bye') or ('x.bye' in names and names[-1] != 'x.bye'):
                 bad("#_inv%d events out of send order: %s" % (k, names), xs[-1][1])
             fw = [r for r in i.recv if r[0] in fed_names]
             if not ch[k - 1]["autoforward"]:
@@ -443,6 +464,8 @@ def check_case(ctx, case):
         labels.add('autoforward')
     if any(c["finalize"] for c in case["children"]):
         labels.add('finalize')
+    if case.get("onexit_send"):
+        labels.add('onexit-send-to-child')
     ctx.count(harness.h64(json.dumps(case, sort_keys=True)), exited_alive and both_ways, labels,
               sample=lambda: {"case": case, "parent_events": [e[1] for e in tr if e[0] == 'ev' and e[-2] == ''][:20],
                               "instances": {("inv%d" % k): len(insts[k]) for k in insts}})
@@ -469,6 +492,7 @@ case_s = st.fixed_dictionaries({
     "on_done": st.sampled_from(["stay", "stay", "move"]),
     "forced": st.sampled_from([None, None, None, "run.finished", "stop"]),
     "sched": st.lists(st.integers(0, 3), max_size=6),
+    "onexit_send": st.sampled_from([False, False, True]),
 })
 
 
